@@ -74,7 +74,16 @@ where
         self.sec_param
     }
 
-    fn compute_dimensions(&self, _n: usize) -> (usize, usize) {
+    fn compute_dimensions(&self, n: usize) -> (usize, usize) {
+        // The matrix shape is fixed by the parameters: a polynomial with more coefficients would be
+        // silently truncated, one with fewer (i.e. fewer variables) zero-padded into a commitment
+        // that cannot be opened.
+        assert!(
+            n <= self.n * self.m && 2 * n > self.n * self.m,
+            "polynomial with {} coefficients does not match parameters set up for {}",
+            n,
+            self.n * self.m
+        );
         (self.n, self.m)
     }
 
